@@ -12,22 +12,28 @@ import copy
 import json
 import os
 import random
+import re
 import shutil
 import subprocess
 
+import clibuild
 import framework as fw
 from sx import Str, Sym
 
 PROP = "C19"
 PROP_FILE = "C19_Ffi"
-THEOREMS = ["c19_stateful", "c19_stateful_final", "c19_failed_preparse_noop", "c19_auth_readonly",
-            "c19_names_independent", "c19_assembly_ids", "c19_assembly_text_ok", "c19_assembly_set_fails",
-            "c19_exit_code", "c19_exit_code_validate"]
+THEOREMS = ["c19_stateful", "c19_stateful_final", "c19_stateful_depends_only", "c19_failed_preparse_noop",
+            "c19_auth_readonly", "c19_names_independent", "c19_assembly_ids", "c19_assembly_text_ok",
+            "c19_assembly_set_fails", "c19_assembly_set_refuted", "c19_exit_code", "c19_exit_code_validate"]
+
+# finding: `staticPolicies` as a JSON array ("Multiple policies as a set") of two policies of the same
+# kind is always rejected (every element gets the default id)
+KEY_ARRAY = "C19-ffi-static-policies-array-default-id-collision"
 
 MANIFEST = {
     "text": "The stateful FFI cache as a state machine over arbitrary parser/authorizer oracles: every stateful call of every history answers as the stateless call on the sources last successfully registered under its names (invariant over fold_left step), failed pre-parses and authorization calls leave the state unchanged, names do not interfere; ids assigned to policies given as one text are policy<i> by position, pairwise distinct (assembly cannot fail), while an array of >= 2 policies always collides on policy0; CLI exit-code table. Tied to /repo by differential execution of every ffi entry point against the plain Rust API on the same documents in every accepted shape, by replaying generated call histories (re-registration, failing registrations, unknown names, interleaved names) on one thread and comparing each stateful answer with the stateless answer on the registered sources, and by running the cedar CLI binary.",
     "technique": "proof (Coq, invariant over call histories; parser and authorizer are Section variables) + differential execution FFI vs API + metamorphic shape equivalence + CLI runs",
-    "note": "thread-local storage across threads and the wasm bindings are outside the model; the CLI is driven through the prebuilt binary (not rebuilt for seeded changes)",
+    "note": "thread-local storage across threads and the wasm bindings are outside the model; the CLI binary is rebuilt from the current source (harness/target-cli)",
 }
 
 # ------------------------------------------------------------------ vocabulary
@@ -361,18 +367,16 @@ def canon(a):
         return {"bad_call": True}      # serde's message carries line/column for the string entry point
     if isinstance(a, dict) and isinstance(a.get("fail"), list):
         a = dict(a)
-        a["fail"] = sorted(a["fail"], key=repr)
+        # which entity / policy of several offending ones is named first also depends on hash order
+        a["fail"] = sorted((re.sub(r"`[^`]*`", "`_`", m) if isinstance(m, str) else repr(m)) for m in a["fail"])
     return a
 
 
 # ------------------------------------------------------------------ CLI
 
 def find_cli():
-    for base in (fw.REPO, "/repo"):
-        p = os.path.join(base, "target", "debug", "cedar")
-        if os.path.exists(p):
-            return p
-    return None
+    """the CLI built from the current working tree of the repository under check"""
+    return clibuild.build_cli()
 
 
 def run_cli(args, cwd):
@@ -450,12 +454,14 @@ def run(rep, tier, seed):
             c = g.auth_call(g.pset_source(0.2), g.schema_source(0.2) if rng.random() < 0.6 else None, malformed=True)
         stateless_cmds.append({"op": "auth", "call": c})
         fam_index.append((None, "malformed"))
-    # array shape with 0,1,2,3 policies
-    for n in (0, 1, 2, 3):
-        for _ in range(3):
-            c = g.auth_call({"staticPolicies": [rng.choice(BODIES) for _ in range(n)]})
+    # array shape: every combination of text (t) / JSON (j) elements up to length 3
+    set_kinds = [()] + [k for n in (1, 2, 3) for k in __import__("itertools").product("tj", repeat=n)]
+    for kinds in set_kinds:
+        for _ in range(2):
+            bs = [rng.choice(BODIES) for _ in kinds]
+            c = g.auth_call({"staticPolicies": [b if k == "t" else body_json[b] for k, b in zip(kinds, bs)]})
             stateless_cmds.append({"op": "auth", "call": c})
-            fam_index.append((None, "set%d" % n))
+            fam_index.append((None, "set:" + "".join(kinds)))
 
     # ---------- stream 2: the other entry points
     other = []
@@ -509,6 +515,7 @@ def run(rep, tier, seed):
     res2 = flat(fw.run_rust(harness, batches(other, B)), other, B)
 
     distinct = set()
+    set_seen = {}
     fam_answers = {}
     n_eval = 0
     for c, a, (fi, tag) in zip(stateless_cmds, res1, fam_index):
@@ -531,12 +538,9 @@ def run(rep, tier, seed):
             fam_answers.setdefault(fi, []).append((tag, c, f))
         if "ok" in f and (f["ok"]["reasons"] or f["ok"]["errors"]):
             distinct.add(fw.case_hash(c))
-        if tag.startswith("set") and "bad_call" not in f:
-            n = int(tag[3:])
-            if ("ok" in f) != (n <= 1):
-                viol("array of %d static policies: model says assembly %s" % (n, "succeeds" if n <= 1 else "fails (policy0 twice)"),
-                     {"history": [c], "answer": a, "model": "Ffi.assemble (SetOf ..)", "rust": "ffi::StaticPolicySet::parse",
-                      "theorem": "c19_assembly_set_fails"}, no_failing_input=True)
+        if tag.startswith("set:") and "bad_call" not in f:
+            kinds = tag[4:]
+            set_seen.setdefault(kinds, []).append((c, a))
     # the same policies / schema in every accepted shape: same answer
     n_fam_cmp = 0
     for fi, lst in fam_answers.items():
@@ -580,6 +584,22 @@ def run(rep, tier, seed):
                 n = rng.choice(SN[:2] if rng.random() < 0.8 else SN)
                 seens.append(n)
                 ops.append({"op": "preparse_schema", "name": n, "schema": g.schema_source(0.25)})
+            elif r < 0.54:
+                # stateless entry points in between (both schema syntaxes): they neither see nor
+                # disturb the cache
+                v = rng.choice(["v1", "v2", "v3"])
+                sch = rng.choice([SCHEMA_CEDAR[v], schema_json(v), g.schema_source(0.5)])
+                k = rng.randrange(5)
+                if k == 0:
+                    ops.append({"op": "validate", "call": {"schema": sch, "policies": g.pset_source(0.2)}})
+                elif k == 1:
+                    ops.append({"op": "check_parse_schema", "schema": sch})
+                elif k == 2:
+                    ops.append({"op": "check_parse_policy_set", "policies": g.pset_source(0.3)})
+                elif k == 3:
+                    ops.append({"op": "check_parse_entities", "call": {"entities": g.entities(owner=(v != "v3")), "schema": sch}})
+                else:
+                    ops.append({"op": "auth", "call": g.auth_call(g.pset_source(0.2), sch, sv=v)})
             else:
                 q = g.auth_call(None, None, malformed=rng.random() < 0.06)
                 q.pop("policies")
@@ -629,6 +649,14 @@ def run(rep, tier, seed):
                     if o["name"] in reg:
                         stats["failed_after_ok_same_name"] += 1
                 mops.append([Sym("pset" if key == "policies" else "schema"), Str(o["name"]), oi, bool(ok)])
+            elif o["op"] != "stateful_auth":
+                # a stateless entry point inside the history: FFI vs API as usual; not an op of the model
+                stats["interleaved_stateless"] = stats.get("interleaved_stateless", 0) + 1
+                why = cmp_auth(a) if o["op"] == "auth" else cmp_generic(o["op"], a)
+                if why:
+                    viol("FFI %s (inside a cache history) differs from the Rust API: %s" % (o["op"], why),
+                         {"history": ops[:oi + 1], "answer": a})
+                mops.append(None)
             else:
                 stats["stateful_calls"] += 1
                 q = o["call"]
@@ -692,8 +720,8 @@ def run(rep, tier, seed):
     ids_ns = list(range(0, 13)) + [100, 101]
     for n in ids_ns:
         msx.append([Sym("ffi_ids"), Sym("text"), n])
-    for n in (0, 1, 2, 3):
-        msx.append([Sym("ffi_ids"), Sym("set"), n])
+    for kinds in set_kinds:
+        msx.append([Sym("ffi_ids"), Sym("set"), [k == "j" for k in kinds]])
     for o in ("allow", "deny", "error"):
         msx.append([Sym("ffi_exit"), Sym("authorize"), Sym(o)])
     mres = fw.run_model(driver, msx)
@@ -750,19 +778,48 @@ def run(rep, tier, seed):
                  {"model_ids": mids, "api_ids": api_ids, "ffi_reasons": ffi_ids, "history": [idcalls[2 * j + 1]],
                   "model": "Ffi.assign_ids (Concatenated ..)", "rust": "PolicySet::from_str via ffi::StaticPolicySet::parse",
                   "theorem": "c19_assembly_ids"}, no_failing_input=(api_ids == ffi_ids))
-    for j, n in enumerate((0, 1, 2, 3)):
+    array_finding = None
+    for j, kinds in enumerate(set_kinds):
         mr = mres[k + len(ids_ns) + j]
-        if (str(mr[1]) == "true") != (n <= 1):
-            viol("model assembly of an array", {"n": n, "model": repr(mr)}, no_failing_input=True)
+        m_ok = str(mr[1]) == "true"
+        kk = "".join(kinds)
+        for c, a in set_seen.get(kk, []):
+            n_corr += 1
+            f = a["ffi"]
+            if ("ok" in f) != m_ok:
+                viol("array of static policies (%s): the model says assembly %s" % (kk or "empty", "succeeds" if m_ok else "fails"),
+                     {"history": [c], "answer": a, "model": "Ffi.assemble (SetOf ..)", "rust": "ffi::StaticPolicySet::parse",
+                      "theorem": "c19_assembly_set_fails"}, no_failing_input=True)
+            elif "ok" in f and sorted(x.text() for x in mr[0]) != a["api"]["ids"]["policies"]:
+                viol("array of static policies (%s): ids differ from the model" % kk,
+                     {"history": [c], "answer": a, "model_ids": [x.text() for x in mr[0]], "theorem": "c19_assembly_set_fails"},
+                     no_failing_input=True)
+            if "fail" in f and kk in ("tt", "jj") and array_finding is None:
+                array_finding = (c, a)
     model_exit = {}
     for j, o in enumerate(("allow", "deny", "error")):
-        model_exit[o] = int(mres[k + len(ids_ns) + 4 + j])
+        model_exit[o] = int(mres[k + len(ids_ns) + len(set_kinds) + j])
+    # FINDING (witness of c19_assembly_set_refuted replayed on the implementation): the documented
+    # array shape rejects two well-formed policies, and the library's own conversion
+    # StaticPolicySet::from(&PolicySet) produces such arrays
+    two = "permit(principal,action,resource);forbid(principal,action,resource);"
+    rt = fw.run_rust(harness, [{"cmd": "ffi_history", "calls": [
+        {"op": "static_from_api", "text": two},
+        {"op": "check_parse_policy_set", "policies": {"staticPolicies": two}},
+        {"op": "check_parse_policy_set", "policies": {"staticPolicies": ["permit(principal,action,resource);", "forbid(principal,action,resource);"]}}]}])[0]["answers"]
+    if "ok" in rt[1]["ffi"] and ("fail" in rt[2]["ffi"] or "fail" in rt[0]["ffi"]):
+        viol("two well-formed static policies are accepted as one text but rejected as a JSON array (documented: 'Multiple policies as a set'); ffi::StaticPolicySet::from(&PolicySet) itself produces such an array",
+             {"history": [{"op": "check_parse_policy_set", "policies": {"staticPolicies": ["permit(principal,action,resource);", "forbid(principal,action,resource);"]}}],
+              "as_array": rt[2]["ffi"], "as_text": rt[1]["ffi"], "library_conversion_document": rt[0].get("document"),
+              "library_conversion_fed_back": rt[0]["ffi"], "theorem": "c19_assembly_set_refuted",
+              "location": "cedar-policy/src/ffi/utils.rs StaticPolicySet::parse, Self::Set: policy.parse(None)"},
+             key=KEY_ARRAY)
     if model_exit != MODEL_EXIT:
         viol("model exit-code table changed", {"model": model_exit}, no_failing_input=True)
 
     # ---------- CLI
     cli = find_cli()
-    cli_stats = {"binary": cli, "authorize": 0, "validate": 0, "translate": 0, "exit_codes": {}}
+    cli_stats = {"binary": cli, "built_from": fw.REPO, "authorize": 0, "validate": 0, "translate": 0, "exit_codes": {}}
     if cli:
         d = os.path.join(fw.WORK, "c19_cli_%d" % seed)
         shutil.rmtree(d, ignore_errors=True)
@@ -884,7 +941,7 @@ def run(rep, tier, seed):
         "one thread per history (thread-local cache); behaviour across threads and the wasm bindings are outside the model",
         "error messages compared only by count / stage / not-found text; warnings produced by schema parsing are not part of the stateful answer (stateful_is_authorized never reports them) and are excluded from the stateful-vs-stateless comparison",
         "the model abstracts everything after the two cache look-ups as one function shared with the stateless path; that the two Rust code paths (AuthorizationCall::parse / StatefulAuthorizationCall::parse) agree is checked by the oracle only",
-        "CLI: the prebuilt binary %s is used (not rebuilt against seeded changes); if absent the CLI part is skipped" % (cli,),
+        "CLI: %s, rebuilt by cargo from the current working tree of %s before the runs" % (cli, fw.REPO),
     ]
 
 
